@@ -557,8 +557,12 @@ func runProperty() int {
 			return 2
 		}
 		// redirects declared by the harness file: functions named Redirect_<sanitised target>
+		solverBin := envOr("VERIF_SOLVER", "z3")
+		if s, ok := h.Opts["solver"]; ok {
+			solverBin = s
+		}
 		cfg := sx.Config{
-			SolverBin: envOr("VERIF_SOLVER", "z3"),
+			SolverBin: solverBin,
 			TimeoutMs: optInt(h, *tier, "timeout", 60000),
 			Unwind:    optInt(h, *tier, "unwind", 64),
 			MaxSteps:  optInt(h, *tier, "steps", 2000000),
